@@ -4,6 +4,7 @@ import (
 	"bytes"
 	"encoding/json"
 	"fmt"
+	"strings"
 
 	"github.com/corestario/kyber"
 	"github.com/corestario/kyber/pairing"
@@ -297,11 +298,22 @@ func runC02(w *World, tier string) (bool, interface{}) {
 			t2 = len(sub)
 		}
 		w.Advance(2e9)
-		if round2, rep2 := c.StartDKG(w.Tape.Choose(len(sub), "proposer2"), t2, sub); rep2.OK() && round2 != round {
+		round2, rep2 := "", &APIResult{Code: 200}
+		if w.Tape.Bool(1, 2, "lookAlikeRoundId") {
+			// ... under an id that differs from the finished round's by white space only
+			round2 = c.StartDKGUnder(w.Tape.Choose(len(sub), "proposer2"), t2, sub, []string{round + " ", " " + round, round + "\n", "\t" + round + " "}[w.Tape.Choose(4, "lookAlikeId")])
+			w.Stats.Fault("later-round-under-a-look-alike-id")
+		} else {
+			round2, rep2 = c.StartDKG(w.Tape.Choose(len(sub), "proposer2"), t2, sub)
+		}
+		if rep2.OK() && round2 != round {
 			c.L.RunUntil(func() bool { return c.AllInState(round2, StIdle, sub) || c.AnyCancelled(round2, sub) }, 400*n)
 			c.L.Quiesce(6)
 			if c.AllInState(round2, StIdle, sub) && !w.Failed() {
 				w.Stats.Fault("multi-round")
+				if strings.TrimSpace(round2) == round {
+					w.Stats.Probe("later-round-under-a-look-alike-id-completed")
+				}
 				checkKeyMaterial(w, round2, sub, t2, "C02")
 				if !w.Failed() {
 					checkKeyMaterial(w, round, members, t, "C02")
